@@ -570,3 +570,10 @@ Theorem random_model_passes_check :
     Genesis.Random.check_random (Genesis.Random.mkCase h tbl [PassCheck.PRandom.model_run s]) = (-1, -1, 0).
 Proof. exact PassCheck.PRandom.random_model_passes_check. Qed.
 Print Assumptions random_model_passes_check.
+
+(** htlc (as-is path): the model's run imports into the exported state without its closed contracts *)
+Theorem htlc_model_passes_check :
+  forall (h : Z) (s : Genesis.Htlc.state), Genesis.Htlc.invb true s = true ->
+    Genesis.Htlc.check_htlc (Genesis.Htlc.mkCase h [PassCheck.PHtlc.model_run s]) = (-1, -1, 0).
+Proof. exact PassCheck.PHtlc.htlc_model_passes_check. Qed.
+Print Assumptions htlc_model_passes_check.
